@@ -5,6 +5,8 @@ mod c04;
 mod c05;
 mod c07;
 mod c08;
+mod c09;
+mod c10;
 mod c19;
 mod common;
 mod json;
@@ -68,6 +70,8 @@ fn main() {
         "C05" => (c05::run(&cfg), c05::RULE, c05::REQUIRED),
         "C07" => (c07::run(&cfg), c07::RULE, c07::REQUIRED),
         "C08" => (c08::run(&cfg), c08::RULE, c08::REQUIRED),
+        "C09" => (c09::run(&cfg), c09::RULE, c09::REQUIRED),
+        "C10" => (c10::run(&cfg), c10::RULE, c10::REQUIRED),
         "C19" => (c19::run(&cfg), c19::RULE, c19::REQUIRED),
         _ => usage(),
     };
